@@ -6,6 +6,7 @@ every plain field of a leaf is written inside its once only.
 -/
 import Pandora.Gen.C02Leaf
 import Pandora.Model.C02LeafPar
+import Pandora.Model.C02Pub
 
 namespace Pandora.Bridge.C02Leaf
 open Pandora.Gen.C02Leaf Pandora.Model.C02.LeafPar
@@ -47,5 +48,22 @@ theorem index_is_fetch_and_increment :
 
 /-- plain fields of a leaf are written inside the once only (so reading them after the once is not an access) -/
 theorem plain_writes_in_once : ∀ r ∈ leafPlainWrites, r.2.2.2 = true := by decide
+
+/-! ### round 6: the ORDER in which a starting unlimited leaf publishes, and in which `Left` reads -/
+
+open Pandora.Model.C02.Pub in
+/-- accesses of one method in execution order -/
+def orderOf (ty m : String) : List String :=
+  ((leafOrder.filter (fun r => r.1 == ty && r.2.1 == m)).map (·.2.2)).flatten
+
+open Pandora.Model.C02.Pub in
+/-- **the source stores the finish time BEFORE it raises the started flag** — in `Next` (inside the once) and in
+`Start` — **and `Left` loads the flag BEFORE the finish time**: the orders `Proofs/C02R6Pub.lean publish_safe` is about.
+Only the relative order of these stores / loads is compared (other accesses, helper methods, renamed locals and
+split statements do not matter); swapping the two stores (the code before fix 4d9aa06) or the two loads breaks it. -/
+theorem unlimited_publish_order :
+    wOrder (orderOf "unlimitedSchedule" "Next") = [.storeFinish, .storeStarted] ∧
+    wOrder (orderOf "unlimitedSchedule" "Start") = [.storeFinish, .storeStarted] ∧
+    rOrder (orderOf "unlimitedSchedule" "Left") = [.loadStarted, .loadFinish] := by decide
 
 end Pandora.Bridge.C02Leaf
